@@ -128,6 +128,29 @@ fn known_class(f: &NetworkFilter, req: &Request, url: &str) -> Option<&'static s
     None
 }
 
+/// Lists dominated by modifier rules (removeparam / csp / redirect, with exceptions, tags and
+/// important) on one or two shared patterns, so that the hit SETS feeding the rewritten URL and the
+/// CSP merge have several members.
+fn modifier_list(r: &mut Rng) -> Vec<String> {
+    let pats = [gen::pattern(r), gen::pattern(r)];
+    let n = r.range(2, 7);
+    let mut v = vec![];
+    for _ in 0..n {
+        let p = &pats[r.below(2)];
+        let tag = if r.chance(1, 5) { format!(",tag={}", r.pick(gen::TAGS)) } else { String::new() };
+        v.push(match r.below(10) {
+            0 | 1 | 2 => format!("{}$removeparam={}", p, r.pick(gen::PARAMS)),
+            3 | 4 => format!("{}$csp={}{}", p, r.pick(&["script-src 'none'", "img-src *", "default-src 'self'"]), tag),
+            5 => format!("@@{}$csp={}{}", p, r.pick(&["script-src 'none'", "img-src *"]), tag),
+            6 => if r.chance(1, 3) { format!("@@{}$csp", p) } else { format!("{}$redirect={}", p, r.pick(gen::RESOURCES)) },
+            7 => format!("{}$important", p),
+            8 => format!("@@{}{}", p, if tag.is_empty() { String::new() } else { format!("${}", &tag[1..]) }),
+            _ => gen::rule(r, true),
+        });
+    }
+    v
+}
+
 fn vjson(v: &V) -> Value {
     json!({"matched": v.matched, "important": v.important, "exception": v.exception, "filter": v.filter})
 }
@@ -157,7 +180,7 @@ fn main() {
         return replay(p);
     }
     let mut r = Rng::new(a.seed);
-    let mut cs = Cases::new(&a.out, "Hashing Net_Model Tok_Proofs");
+    let mut cs = Cases::new(&a.out, "Generated Hashing Net_Model Tok_Proofs Engine_Model");
     cs.shard = 60;
     let mut sm = Summary::default();
     sm.rule = "lists of 1-12 rules from the shared grammar (small vocabulary so tokens collide; all option kinds, tags, badfilter, duplicates) x requests built from the same vocabulary, half of them derived from a rule of the list; non-trivial = at least one rule of the list matches the request (by per-rule scan)".into();
@@ -244,7 +267,7 @@ fn main() {
     let n_lists = 250 * a.scale;
     for li in 0..n_lists {
         let nr = r.range(1, 12);
-        let mut lines: Vec<String> = gen::rule_list(&mut r, nr, li % 3 == 0);
+        let mut lines: Vec<String> = if li % 3 == 0 && r.chance(2, 3) { modifier_list(&mut r) } else { gen::rule_list(&mut r, nr, li % 3 == 0) };
         if r.chance(1, 4) && !lines.is_empty() {
             let d = lines[r.below(lines.len())].clone();
             lines.push(d); // duplicate
@@ -287,9 +310,22 @@ fn main() {
 
         let nq = 3;
         for _ in 0..nq {
-            let url = if r.chance(1, 2) { { let k = r.below(lines.len()); gen::url_for(&mut r, &lines[k]) } } else { gen::url(&mut r) };
+            let url = if r.chance(if li % 3 == 0 { 3 } else { 1 }, if li % 3 == 0 { 4 } else { 2 }) { { let k = r.below(lines.len()); gen::url_for(&mut r, &lines[k]) } } else { gen::url(&mut r) };
             let src = gen::source_url(&mut r);
-            let ty = gen::request_type(&mut r);
+            let mut ty = gen::request_type(&mut r);
+            let mut url = url;
+            if li % 3 == 0 {
+                // modifier lists: give removeparam something to remove and csp a document to protect
+                let names: Vec<String> = lines.iter().filter_map(|l| l.split("removeparam=").nth(1)).map(|x| x.split(',').next().unwrap_or("").to_string()).collect();
+                if !url.contains('?') && !url.contains('#') && r.chance(2, 3) {
+                    let k1 = if !names.is_empty() && r.chance(3, 4) { names[r.below(names.len())].clone() } else { r.pick(gen::PARAMS).to_string() };
+                    let k2 = if !names.is_empty() && r.chance(1, 2) { names[r.below(names.len())].clone() } else { r.pick(gen::PARAMS).to_string() };
+                    url = format!("{}?{}={}&{}={}", url, k1, r.pick(gen::VOCAB), k2, r.pick(gen::VOCAB));
+                }
+                if r.chance(1, 2) {
+                    ty = r.pick(&["document", "subdocument", "main_frame"]);
+                }
+            }
             let Ok(req) = Request::new(&url, &src, ty) else { cs.stat("request_error"); continue };
             let matching: Vec<u64> = rules.iter().filter(|f| rule_matches(f, &req)).map(|f| f.id).collect();
             // a third of the queries go through the subset entry point (another engine matched before /
@@ -345,11 +381,20 @@ fn main() {
             cs.stat(if matching.is_empty() { "verd_nomatch" } else { "verd_match" });
             if mr || fc { cs.stat("verd_subset_query"); }
             let probes = clist(&req.get_tokens_for_match().copied().collect::<Vec<u64>>(), |x| cn(*x));
+            // the whole answer: verdict bits, rewritten URL (C14 rewrite over the removeparam hits of the
+            // model index) and CSP (C15 merge over the csp hits); the redirect needs the resource store and
+            // is compared in C13 (here: empty store on both sides)
+            let full = e.check_network_request_subset(&req, mr, fc);
+            let csp = e.get_csp_directives(&req);
+            let orig = adblock::request::verif::original_url(&req).to_string();
+            if full.rewritten_url.is_some() { cs.stat("verd_rewritten"); }
+            if csp.is_some() { cs.stat("verd_csp"); }
             cs.case(
                 format!(
-                    "let L := {} in let ids := {} in verdict_eqb (blocker_check_p (fun f => memN (rid f) ids) {} {} {} (with_tags seahash (blocker_new seahash L) {})) (Build_verdict {} {} {} {})",
-                    coq_rules(&dumps), clist(&matching, |x| cn(*x)), probes, cbool(mr), cbool(fc), tags_coq,
-                    cbool(got.matched), cbool(got.important), cbool(got.exception), cbool(got.filter)
+                    "let L := {} in let m := (fun f => memN (rid f) {}) in let pr := {} in let b := with_tags seahash (blocker_new seahash L) {} in let r := engine_check m pr true {} C13_Model.empty_store {} {} b in verdict_eqb (Build_verdict (r_matched r) (r_important r) (r_exception r) (r_filter r)) (Build_verdict {} {} {} {}) && C14_Model.ostr_eqb (r_rewritten r) {} && C15_Model.csp_agree (engine_csp m pr RT_{:?} b) {} && C14_Model.ostr_eqb (r_redirect r) {}",
+                    coq_rules(&dumps), clist(&matching, |x| cn(*x)), probes, tags_coq, hxs(&orig), cbool(mr), cbool(fc),
+                    cbool(got.matched), cbool(got.important), cbool(got.exception), cbool(got.filter),
+                    copt(&full.rewritten_url, |u| hxs(u)), req.request_type, copt(&csp, |u| hxs(u)), copt(&full.redirect, |u| hxs(u))
                 ),
                 desc,
                 !matching.is_empty(),
